@@ -79,7 +79,7 @@ def run(ctx):
     sats = sorted(s for s in table0 if isinstance(table0[s], dict) and "channel_1" in table0[s])
     saved = (Calibrator.default_coeffs, Calibrator.default_file, Calibrator.default_version)
     drv = []
-    nhist = ctx.n(60, 600)
+    nhist = ctx.n(60, 4000)
     try:
         for h in range(nhist):
             length = rng.choice([1, 2, 3, 5, 8, 12])
